@@ -120,7 +120,7 @@ def fatal(rng, ident):
 
 
 def close_race(rng, ident):
-    v = rng.below(7)
+    v = rng.below(8)
     s = ["observe/start", "watch/on"]
     if v == 0:      # Close without the receive loop ever started
         s += ["close", "observe/a", "settle", "observe/b"]
@@ -132,6 +132,12 @@ def close_race(rng, ident):
         s += ["park/TransportError/1", "run", "readerr/%s" % rng.choice(["eof", "other"]), "waitpark/TransportError", "observe/a",
               "close", "observe/b", "release/TransportError", "settle", "observe/c"]
         fam = "local-close-wins"
+    elif v == 7:    # the receive loop has met a framing / decoding violation and is parked before closing; a local Close wins: the error
+                    # observers read afterwards is the one Close recorded and it stays that way
+        bad = rng.choice([b"\xc1\x01\x02", b"\x00", frames.frame(b"\x80\x01", mp.Chooser()), frames.frame(frames.content([9, 1, ("s", b"p.m"), None], mp.Chooser()), mp.Chooser())])
+        s += ["park/TransportError/1", "run", "feednowait/" + bad.hex(), "waitpark/TransportError", "observe/a",
+              "close", "observe/b", "release/TransportError", "settle", "observe/c", "sleep/2", "observe/d"]
+        fam = "local-close-wins-over-violation"
     elif v == 3:    # the loop's own exit first, then a local Close
         s += ["run", "readerr/%s" % rng.choice(["eof", "other", "op", "optimeout", "deadline"]), "waitdone", "observe/a", "close", "observe/b", "settle", "observe/c"]
         fam = "loop-exit-first"
